@@ -141,6 +141,8 @@ func (w *World) resolveType(te *TypeExpr, ctx *ResCtx) *SType {
 		return &SType{Go: types.NewMap(w.resolveType(te.Key, ctx).Go, w.resolveType(te.Elem, ctx).Go)}
 	case "set":
 		return &SType{Set: w.resolveType(te.Elem, ctx)}
+	case "emptystruct":
+		return &SType{Go: types.NewStruct(nil, nil)}
 	}
 	if te.Pkg != "" {
 		path, ok := ctx.Imports[te.Pkg]
@@ -515,7 +517,7 @@ func (e *Env) evalBin(x *EBin) (string, *SType) {
 		if ta.Go != nil {
 			if bb, ok := types.Unalias(ta.Go).Underlying().(*types.Basic); ok && bb.Info()&types.IsString != 0 && x.Op == "+" {
 				e.vc.needStrFuns()
-				return "(str.cat " + a + " " + b + ")", ta
+				return "(str!cat " + a + " " + b + ")", ta
 			}
 		}
 		op := map[string]string{"+": "+", "-": "-", "*": "*", "/": "div", "%": "mod"}[x.Op]
@@ -554,7 +556,7 @@ func (e *Env) evalCall(x *ECall) (string, *SType) {
 			return slLen(S.SortOf(ty.Go), t), stInt
 		case *types.Basic:
 			e.vc.needStrFuns()
-			return "(str.len " + t + ")", stInt
+			return "(str!len " + t + ")", stInt
 		}
 		e.fail("len of %s", ty)
 	case "card":
